@@ -13,26 +13,6 @@ namespace Nomt.C15
 open Nomt Nomt.Ovl Nomt.BtTree
 variable {α : Type} [DecidableEq α]
 
-theorem run_snapshot {id : Nat} {r : Rtx α} : ∀ (post : List (Step α)) {st st' : St α}, Inv st → (id, r) ∈ st.rtx →
-    run true st post = .ok st' → (∀ s ∈ post, s ≠ .drop id) →
-    (id, r) ∈ st'.rtx ∧ Inv st' ∧ Agree st.disk st'.disk (refs st.disk r.idx)
-  | [], st, st', inv, hm, h, _ => by
-    simp only [run] at h; injection h with h; subst h; exact ⟨hm, inv, fun _ _ => rfl⟩
-  | s :: rest, st, st', inv, hm, h, hnd => by
-    simp only [run] at h
-    cases hs : step true st s with
-    | err e => rw [hs] at h; cases h
-    | panic m => rw [hs] at h; cases h
-    | ok st1 =>
-      rw [hs] at h
-      have hm1 := step_keeps s hs hm (hnd s (List.mem_cons_self ..))
-      have inv1 := step_inv inv s hs
-      have hag := step_pages inv s hs hm
-      obtain ⟨hm', inv', hag'⟩ := run_snapshot rest inv1 hm1 h (fun s' hs' => hnd s' (List.mem_cons_of_mem _ hs'))
-      refine ⟨hm', inv', fun pn hp => ?_⟩
-      rw [(leaves_frame r.idx hag).2] at hag'
-      rw [hag' pn hp, hag pn hp]
-
 /-- **T15.tree-snapshot** — for EVERY sequence of steps the protocol permits (commits at any time, also while a sync
 is in flight; `gate` only when no read transaction lives; `write` only to pages that were free or fresh when the
 previous sync finished; `finish` only with an index that satisfies the contract of `update`; read transactions begun
